@@ -69,6 +69,8 @@ def status_cases(ctx):
 
 def final_cases(ctx):
     lib.ensure_repo_on_path()
+    import logging
+    logging.disable(logging.CRITICAL)
     from stabilize.handlers.complete_workflow import CompleteWorkflowHandler
     from stabilize.models.stage import StageExecution
     from stabilize.models.status import WorkflowStatus
